@@ -35,6 +35,23 @@ def sig_of(res):
     return [[f.filename, hashlib.sha256(f.contents.encode('utf-8')).hexdigest(), f.hash] for f in res.files]
 
 
+def sibling_of(rng, base):
+    """a copy of a generated case whose declarations keep their names but change their meaning"""
+    c = json.loads(json.dumps({k: v for k, v in base.items() if k != '_info'}))
+    ctypes = ['int', 'long', '::vt::Ext<1>', '::vt::Ext<2>', '::vt::Ext<3>', 'std::chrono::milliseconds']
+
+    def walk(elems):
+        for e in elems:
+            if e['k'] == 'namespace':
+                walk(e['elems'])
+            elif e['k'] == 'extern':
+                e['value'] = rng.choice([t for t in ctypes if t != e['value']])
+    walk(c['src'])
+    c['ast'] = M.enc_root(c['src'])
+    c['_info'] = base['_info']
+    return c
+
+
 class C12(Prop):
     id = 'C12'
     theorems = ['C12.history_free', 'C12.build_is_a_function', 'C12.support_files_standalone']
@@ -61,7 +78,7 @@ class C12(Prop):
         from dznpy.support_files import strict_port, ilog, misc_utils, meta_helpers, multi_client_selector, mutex_wrapped
         from harness.props.c03 import mk_portscfg
         rng, tier = ctx['rng'], ctx['tier']
-        nhist = 12 if tier == 'quick' else scale(800)
+        nhist = 30 if tier == 'quick' else scale(800)
         failures, disagreements, shapes = [], [], []
         evaluations = 0
         all_cases = []
@@ -71,12 +88,16 @@ class C12(Prop):
             models = []
             for _m in range(rng.randint(1, 3)):
                 base = G.gen_case(rng)
+                if models and rng.random() < 0.5:
+                    # a sibling of the first model: the same names everywhere, but every extern denotes another
+                    # C++ type and every enum has other fields - what a cache keyed by names (not by model) mixes up
+                    base = sibling_of(rng, models[0][0])
                 variants = [strip(base)] + [f for f in G.faults(rng, base)]
                 # more valid variants on the same model: other configurations
                 for _v in range(3):
                     c2 = json.loads(json.dumps(strip(base)))
                     c2['cfg']['origin'] = rng.choice(['create', 'import'])
-                    c2['cfg']['prefix'] = rng.choice([None, ['Pfx'], ['A', 'B']])
+                    c2['cfg']['prefix'] = rng.choice([None, ['Pfx'], ['A', 'B'], ['A_B']])
                     c2['cfg']['copyright'] = rng.choice(['c1', 'c2\nline'])
                     variants.append(c2)
                 models.append((base, variants))
